@@ -716,6 +716,14 @@ func goCode(root string, unit string) string {
 		header("Model.GoSem", "Model.GoSlices")
 		text, errs := translateSplicer(parseFile(root, "splicer/splicer.go"), parseFile(root, "pub/interfaces.go"), "Splicer", []string{"Harvest", "clone", "replenish", "microharvest"})
 		emit("splicer/splicer.go (element type, Harvest, clone, replenish, microharvest)", text, errs)
+	case "select":
+		header("Model.GoSem", "Model.GoJson", "Model.Link", "Model.Present", "Generated.GoLink", "Generated.GoStyle")
+		text, errs := translateSelect(root, "pub", map[string][]string{
+			"Post":     {"SelectLink", "Media", "supplement"},
+			"Activity": {"SelectLink"},
+			"Actor":    {"SelectLink", "ProfilePic", "Banner"},
+		}, "pub/link.go")
+		emit("pub/post.go, pub/activity.go, pub/actor.go (link numbering and selection)", text, errs)
 	default:
 		b.WriteString("-- unknown unit " + unit + "\n")
 	}
